@@ -446,16 +446,16 @@ def enumerate_updates(w):
         w.between()
         w.check_stop()
         w.imager = Imager(w)
-        w.imager.arm()
         try:
-            w.phase(mix=cfg['mix_enum'], max_clients=cfg['enum_clients'], msv=False, nops=cfg['enum_ops'])
-        finally:
-            w.imager.disarm()
-        try:
+            w.imager.arm()
+            try:
+                w.phase(mix=cfg['mix_enum'], max_clients=cfg['enum_clients'], msv=False, nops=cfg['enum_ops'])
+            finally:
+                w.imager.disarm()
             w.check_stop()
             w.imager.check_all()
         finally:
-            w.imager.drop()
+            w.imager.drop()  # whatever ended the phase: no image directory is left behind
             w.imager = None
         w.check_stop()
         w.check_all('after-enumerated-phase')
